@@ -485,7 +485,16 @@ func (p *parser) parseConstValue(node *node32) (cv *ConstValue, err error) {
 	// DoubleConstant / IntConstant / Literal / Identifier / ConstList / ConstMap
 	switch node.pegRule {
 	case ruleDoubleConstant:
-		double, _ := strconv.ParseFloat(p.pegText(node), 64)
+		// the capture of a DoubleConstant with an exponent ends with the white space that
+		// the exponent's IntConstant swallows ("6e0 }"): drop it before converting
+		text := strings.Map(func(r rune) rune {
+			switch r {
+			case ' ', '\t', '\v', '\r', '\n':
+				return -1
+			}
+			return r
+		}, p.pegText(node))
+		double, _ := strconv.ParseFloat(text, 64)
 		return &ConstValue{Type: ConstType_ConstDouble, TypedValue: &ConstTypedValue{Double: &double}}, nil
 	case ruleIntConstant:
 		i, err := strconv.ParseInt(p.pegText(node), 0, 64)
